@@ -490,6 +490,10 @@ pub trait Property: Sync {
     fn abort_is_violation(&self) -> bool {
         false
     }
+    /// a known input class that explains why the process died (abort / hang) on this case
+    fn death_trigger(&self, _case: &Self::Case) -> Option<String> {
+        None
+    }
     /// enumerated / special phases run before the generated cases
     fn extra_phases(&self, _cfg: &RunCfg, _known: &[KnownFinding], _stats: &mut Stats) {}
 }
@@ -564,7 +568,7 @@ impl Stats {
 
 static WATCH: Mutex<Vec<Option<(Instant, String)>>> = Mutex::new(Vec::new());
 static WATCH_STARTED: AtomicBool = AtomicBool::new(false);
-pub const WATCHDOG_SECS: u64 = 240;
+pub const WATCHDOG_SECS: u64 = 40;
 
 fn watch_set(slot: usize, what: Option<String>) {
     let mut g = WATCH.lock().unwrap();
@@ -963,14 +967,20 @@ pub fn run_generated<P: Property>(p: &P, cfg: &RunCfg, n_cases: usize, stream: &
                             let at = at.unwrap_or(start).clamp(start, end - 1);
                             // the case that was running
                             let mut runner = runner_for(cfg.seed, p.id(), stream, at as u64);
-                            let case_json = strategy.new_tree(&mut runner).ok().map(|t| p.to_json(&t.current())).unwrap_or(Value::Null);
-                            let sig = abort_signature(&how);
+                            let case = strategy.new_tree(&mut runner).ok().map(|t| t.current());
+                            let case_json = case.as_ref().map(|c| p.to_json(c)).unwrap_or(Value::Null);
+                            let mut sig = abort_signature(&how);
+                            let trigger = case.as_ref().and_then(|c| p.death_trigger(c));
+                            let is_hang = sig == "hang";
+                            if let Some(t) = &trigger {
+                                sig = format!("death:{}", t);
+                            }
                             let mut t = total.lock().unwrap();
                             t.evaluations += 1;
-                            if sig == "hang" {
+                            if is_hang {
                                 hangs.fetch_add(1, Ordering::SeqCst);
                             }
-                            if p.abort_is_violation() && sig != "hang" {
+                            if p.abort_is_violation() && (!is_hang || trigger.is_some()) {
                                 if known_match(known, p.id(), &sig).is_some() {
                                     *t.known_hits.entry(known_match(known, p.id(), &sig).unwrap().signature.clone()).or_default() += 1;
                                 } else if reported.lock().unwrap().insert(sig.clone()) {
@@ -1012,7 +1022,7 @@ pub fn run_generated<P: Property>(p: &P, cfg: &RunCfg, n_cases: usize, stream: &
 fn replay_in_child<P: Property>(p: &P, file: &str) -> Result<Vec<(String, String)>, String> {
     use std::process::{Command, Stdio};
     let exe = std::env::current_exe().expect("current_exe");
-    let out = Command::new(exe).args(["replay-json", p.id(), file]).stdin(Stdio::null()).stderr(Stdio::piped()).stdout(Stdio::piped()).output().map_err(|e| e.to_string())?;
+    let out = Command::new("timeout").arg("-s").arg("KILL").arg((WATCHDOG_SECS / 2).to_string()).arg(exe).args(["replay-json", p.id(), file]).stdin(Stdio::null()).stderr(Stdio::piped()).stdout(Stdio::piped()).output().map_err(|e| e.to_string())?;
     let stdout = String::from_utf8_lossy(&out.stdout).to_string();
     for line in stdout.lines() {
         if let Some(r) = line.strip_prefix("OUTCOME ") {
@@ -1027,6 +1037,8 @@ fn replay_in_child<P: Property>(p: &P, file: &str) -> Result<Vec<(String, String
     let err = String::from_utf8_lossy(&out.stderr).to_string();
     if err.contains("overflowed its stack") {
         Err("abort: stack overflow".into())
+    } else if out.status.code() == Some(137) || (out.status.code().is_none() && !err.contains("panicked")) {
+        Err("hang: killed by the replay timeout".into())
     } else {
         Err(format!("abort: {:?}", out.status))
     }
@@ -1078,7 +1090,13 @@ pub fn run_replays<P: Property>(p: &P, known: &[KnownFinding], stats: &mut Stats
             Ok(v) => v,
             Err(how) => {
                 if p.abort_is_violation() {
-                    vec![(abort_signature(&how), how)]
+                    let text = std::fs::read_to_string(&f).unwrap_or_default();
+                    let case = serde_json::from_str::<Value>(&text).ok().and_then(|v| p.from_json(&v["case"]));
+                    let sig = match case.as_ref().and_then(|c| p.death_trigger(c)) {
+                        Some(t) => format!("death:{}", t),
+                        None => abort_signature(&how),
+                    };
+                    vec![(sig, how)]
                 } else {
                     vec![]
                 }
